@@ -79,6 +79,10 @@ func runC18(rcx *RunCtx) {
 	n := 6 + p.Choose(30)
 	wga := p.Choose(2) == 1
 	rcx.Label = fmt.Sprintf("server kinds=%v conns=%d", kinds, nconn)
+	pipelined := rcx.Index%4 == 2
+	if pipelined {
+		rcx.Label = fmt.Sprintf("server pipelined conns=%d", nconn)
+	}
 	var trace []string
 	rcx.Res = simrt.Run(cfg, rcx.Sched, func() {
 		fs := simfs.New()
@@ -89,6 +93,7 @@ func runC18(rcx *RunCtx) {
 		for i := range big.Data {
 			big.Data[i] = byte('a' + i%26)
 		}
+		fs.MkPath("/wfile")
 		big.SetXattrDirect("user.x", []byte("xattr-value"))
 		big.SetXattrDirect("user.longer-name", []byte(strings.Repeat("v", 300)))
 		w := NewWorld(nil, fs)
@@ -133,7 +138,72 @@ func runC18(rcx *RunCtx) {
 			step(x, &rc.Twalk{Fid: 0, NewFid: 2})
 			step(x, &rc.Tlopen{Fid: 2, Flags: 0})
 		}
-		for i := 0; i < n && len(rcx.Findings) == 0; i++ {
+		if pipelined {
+			// Several requests in flight together: buffers and message
+			// objects are recycled while other requests are still being
+			// handled or answered.  The requests of a batch work on fixed
+			// content through their own fids, so each has one right answer
+			// whatever the order: judged against the calls the backend
+			// received on its behalf.
+			for _, x := range conns {
+				step(x, &rc.Twalk{Fid: 0, NewFid: 3, Names: []string{"wfile"}})
+				step(x, &rc.Tlopen{Fid: 3, Flags: 2})
+				step(x, &rc.Twalk{Fid: 0, NewFid: 4, Names: []string{"big"}})
+				step(x, &rc.Tlopen{Fid: 4, Flags: 0})
+			}
+			for round := 0; round < 2+n/6 && len(rcx.Findings) == 0; round++ {
+				type sent struct {
+					m   rc.Message
+					req *FrameRec
+				}
+				var batch []sent
+				for k := 2 + simrt.Choose(4); k > 0; k-- {
+					x := conns[simrt.Choose(len(conns))]
+					var m rc.Message
+					switch simrt.Choose(6) {
+					case 0, 1:
+						m = &rc.Tread{Fid: []uint32{1, 4}[simrt.Choose(2)], Offset: uint64([]int{0, 26, 4000, 5990}[simrt.Choose(4)]), Count: uint32([]int{4000, 3, 700, 100, 1}[simrt.Choose(5)])}
+					case 2:
+						d := make([]byte, []int{1, 300, 4000}[simrt.Choose(3)])
+						for i := range d {
+							d[i] = byte(0x30 + (round+i+k)%70)
+						}
+						m = &rc.Twrite{Fid: 3, Offset: uint64(simrt.Choose(3)), Data: d}
+					case 3:
+						m = &rc.Treaddir{Fid: 2, Offset: 0, Count: uint32([]int{4000, 60, 300}[simrt.Choose(3)])}
+					case 4:
+						m = &rc.Tgetattr{Fid: 1, Mask: rc.GetattrAll}
+					case 5:
+						m = &rc.Twalk{Fid: 0, NewFid: uint32(70 + k), Names: [][]string{{"a", "b"}, {"big"}, {"nope", "x"}, {}}[simrt.Choose(4)]}
+					}
+					batch = append(batch, sent{m, x.c.Send(x.c.Tag(), m)})
+				}
+				simrt.WaitQuiescent()
+				rcx.Count("pipelined.requests", len(batch))
+				for _, b := range batch {
+					if b.req == nil || b.req.Reply == nil {
+						find("no-reply", rc.TypeName(b.m.MsgType()), "%s not answered", rc.String(b.m))
+						continue
+					}
+					var calls []*simfs.Call
+					for _, cl := range fs.Calls {
+						if cl.Req == b.req && cl.Method != "Close" {
+							calls = append(calls, cl)
+						}
+					}
+					if d := checkRequestArgs(b.m, calls); d != "" {
+						find("backend-args-differ", rc.TypeName(b.m.MsgType()), "pipelined: the backend did not receive the request's own fields: %s", d)
+					}
+					if _, isErr := b.req.Reply.Msg.(*rc.Rlerror); isErr {
+						continue
+					}
+					if exp, ok := expectedReply(b.m, calls); ok && !rc.Equal(exp, b.req.Reply.Msg) {
+						find("reply-differs-from-backend", rc.TypeName(b.m.MsgType()), "pipelined with %d other requests: %s answered %s, but the backend produced %s for it", len(batch)-1, trunc(rc.String(b.m), 80), trunc(rc.String(b.req.Reply.Msg), 120), trunc(rc.String(exp), 120))
+					}
+				}
+			}
+		}
+		for i := 0; i < n && len(rcx.Findings) == 0 && !pipelined; i++ {
 			x := conns[simrt.Choose(len(conns))]
 			step(x, c18Train(simrt.Choose, kinds[i%len(kinds)], i))
 		}
@@ -150,7 +220,7 @@ func init() {
 		Desc: "no carry-over between messages through recycled message objects and buffers",
 		Run:  runC18,
 		Quick: 64000, Thorough: 4000000, QuickSecs: 60, ThorSecs: 1500,
-		Rule:  "trains of 6-36 messages of one or two types with shrinking/growing shapes (Twalk/Twalkgetattr name lists 16->9->1->0, Twrite payloads 4096->1->0, Tread/Treaddir counts long->short->0, Tsymlink/Tmkdir/Tlock/Trenameat strings long->empty, Tsetattr/Tgetattr masks, Txattrwalk names) on one connection and interleaved over 1-3 connections of one server process (process-wide message cache and buffer pools, emptied at run start, pool misses forced 0/20/50/90%); client side: reply trains from a fake server through the client's recycled response objects. Oracle: backend arguments (deep-copied at the call) equal the request's own fields as encoded by the independent codec; replies are what the C04 model and the call log prescribe (Rread = exactly the bytes the backend produced, Rreaddir = the whole entries that fit).",
+		Rule:  "trains of 6-36 messages of one or two types with shrinking/growing shapes (Twalk/Twalkgetattr name lists 16->9->1->0, Twrite payloads 4096->1->0, Tread/Treaddir counts long->short->0, Tsymlink/Tmkdir/Tlock/Trenameat strings long->empty, Tsetattr/Tgetattr masks, Txattrwalk names) on one connection and interleaved over 1-3 connections of one server process (process-wide message cache and buffer pools, emptied at run start, pool misses forced 0/20/50/90%); a quarter of the runs instead sends batches of 2-5 requests (reads of different offsets and lengths through two fids, writes, listings, getattr, walks) that are in flight together, each judged against the calls the backend received on its behalf; client side: reply trains from a fake server through the client's recycled response objects. Oracle: backend arguments (deep-copied at the call) equal the request's own fields as encoded by the independent codec; replies are what the C04 model and the call log prescribe (Rread = exactly the bytes the backend produced, Rreaddir = the whole entries that fit).",
 		Real:   []string{"p9 message registry cache", "p9 buffer pools", "p9 decode/encode", "p9.Server"},
 		Stub:   []string{"transport (simnet pipes)", "backend tree (simfs)", "raw 9P peer / fake server (refcodec)"},
 		Owns:   []string{"C04"},
